@@ -40,4 +40,5 @@ def main(tier):
     chk.run("R-ARRAYSEP", C.arraysep, cx.cpp, floor=3)
     chk.run("R-ALIASDEPS", DR.aliasdeps, r, floor=2)
     chk.run("R-FLOATTEXT", C.floattext, cx.repo, floor=3)
+    chk.run("R-TEXTPAIR", B.textpair, cx.repo, cx.templates, cx.cpp, floor=4)
     return chk.finish()
